@@ -58,17 +58,30 @@ Proof.
   eexists. split; [reflexivity|]. cbn. split; [apply H | reflexivity].
 Qed.
 
-Lemma comment_arm_compressed n ms cenv ctx st t :
-  eval_item (S n) ms true cenv ctx st (SComment t) = Ok st.
-Proof. reflexivity. Qed.
+(* compressed (commit 775eadf): a comment is kept exactly when its text starts with `!` *)
+Lemma comment_arm_compressed_drop n ms cenv ctx st t :
+  starts_bang t = false -> eval_item (S n) ms true cenv ctx st (SComment t) = Ok st.
+Proof. intros H. cbn [eval_item]. rewrite H. reflexivity. Qed.
 
-(* F28 *)
+Lemma comment_arm_compressed_bang n ms cenv ctx st t :
+  starts_bang t = true ->
+  exists st', eval_item (S n) ms true cenv ctx st (SComment t) = Ok st'
+    /\ ncom_state (d_frames st') (d_root st') = S (ncom_state (d_frames st) (d_root st))
+    /\ d_lost st' = d_lost st.
+Proof.
+  intros H. cbn [eval_item]. rewrite H. cbn [negb andb].
+  pose proof (push_comment_count (d_frames st) (d_root st) t) as P.
+  destruct (push_comment (d_frames st) (d_root st) (IComment t)) as [fs root].
+  eexists. split; [reflexivity|]. cbn. split; [apply P | reflexivity].
+Qed.
+
+(* the former witness of F28 now keeps its comment *)
 Definition bang_witness : program :=
   mkProg [] [SComment [33;32;107;101;101;112;32]; SRule [SPlain [97]] [SDecl [98] [99]]].   (* /*! keep */ a{b:c} *)
-Lemma refuted_bang :
-  compile FUEL Compressed bang_witness = Ok ([97;123;98;58;99;125;10], 0%nat)
-  /\ comments_in (reach_program FUEL bang_witness) = [[33;32;107;101;101;112;32]].
-Proof. split; vm_compute; reflexivity. Qed.
+Lemma bang_kept :
+  exists o, compile FUEL Compressed bang_witness = Ok (o, 0%nat)
+    /\ comments_of o = [[33;32;107;101;101;112;32]].
+Proof. eexists. split; vm_compute; reflexivity. Qed.
 
 (* the writer emits a one-line comment verbatim between its delimiters *)
 Lemma rev_add x b : rev (add x b) = rev b ++ x.
@@ -81,5 +94,5 @@ Proof.
   intros Hh Ht. unfold write_comment. rewrite Hh. rewrite (comment_text_nonl s ind t Ht).
   unfold add_one, do_indent_no_nl. destruct (is_compressed s).
   - exists [], []. rewrite !rev_add. rewrite <- !app_assoc. reflexivity.
-  - exists (spaces ind), [10]. rewrite !rev_add. rewrite <- !app_assoc. reflexivity.
+  - exists (spaces (Nat.min ind indent_cap)), [10]. rewrite !rev_add. rewrite <- !app_assoc. reflexivity.
 Qed.
